@@ -102,6 +102,12 @@ def main():
             cases.append({'kind': 'valid', 'name': name, 'text': text})
         else:
             cases.append({'kind': 'invalid', 'name': name, 'cls': 'undefined-interfaced-item', 'detail': 'name-before-rename', 'planted': 'widget', 'text': text})
+    # one schema per parametrised diagnostic of the front end (group reference of a non-entity, circular type definition, missing INCLUDE ...)
+    for c in gfam.diagnostic_catalogue():
+        if c['cls'] == 'always-true-branch':
+            cases.append({'kind': 'valid', 'name': 'catalogue/' + c['cls'], 'text': c['text']})
+        elif 'extra_files' not in c:
+            cases.append({'kind': 'invalid', 'name': 'catalogue', 'cls': 'catalogue:' + c['cls'], 'detail': c['detail'], 'planted': c['planted'], 'text': c['text']})
     ship = gfam.shipped()
     if args.tier == 'quick':
         ship = [s for s in ship if os.path.getsize(s[1]) < 300000]
